@@ -386,6 +386,55 @@ pub fn run(mut run: Run) -> i32 {
             }
         }
     });
+    // unary_union of one ill-conditioned ring: the least vertex is the tip of a needle (Shewchuk's (0.5,0.5)-(12,12)-(24,24) configuration), so the fill rule
+    // chosen from the ring's winding depends on a robust orientation test; either winding, alone and followed by an ordinary square
+    {
+        use crate::bigf::next_up;
+        let w: i64 = if quick { 24 } else { 96 };
+        run.stage("unary-union-needle-ring", (w * w * 2) as usize, |idx, acc| {
+            let cw = idx % 2 == 1;
+            let k = (idx / 2) as i64;
+            let (i, j) = (k / w - w / 2, k % w - w / 2);
+            let tip = Coord { x: next_up(0.5, i), y: next_up(0.5, j) };
+            // ring tip -> (12,12) -> (40,10) -> (24,24) -> tip: the tip's neighbours are the two far points of the (nearly) common line, so the
+            // orientation at the least vertex is decided in the last bits; kept when the sliver (tip,A,B) lies on the outer side of the body (simple ring)
+            let (a, b, c0) = ((12.0, 12.0), (24.0, 24.0), (40.0, 10.0));
+            let s_body = crate::bigf::orient(a, c0, b);
+            let s_sl = crate::bigf::orient((tip.x, tip.y), a, b);
+            if s_sl == 0 || s_sl != s_body {
+                acc.count("needle rings skipped (tip exactly on the line, or on the inner side: ring not simple)", 1);
+                return;
+            }
+            let mut v = vec![tip, Coord { x: a.0, y: a.1 }, Coord { x: c0.0, y: c0.1 }, Coord { x: b.0, y: b.1 }, tip];
+            let pts: Vec<(f64, f64)> = v[..4].iter().map(|c| (c.x, c.y)).collect();
+            let sign = crate::bigf::ring_area_sign(&pts);
+            if (sign > 0) == cw {
+                v.reverse();
+            }
+            let pg = Polygon::new(LineString::new(v), vec![]);
+            let area = pg.unsigned_area();
+            // the collection must be consistently wound: the square follows the needle's winding
+            let mut sqv = vec![(100.0, 100.0), (101.0, 100.0), (101.0, 101.0), (100.0, 101.0), (100.0, 100.0)];
+            if cw {
+                sqv.reverse();
+            }
+            let sq = Polygon::new(LineString::from(sqv), vec![]);
+            acc.evals += 2;
+            acc.class(format!("needle cw{}", cw));
+            acc.sample(idx, || json!({"ring": format!("{:?}", pg), "clockwise": cw}));
+            for (what, input, want) in [("alone", vec![pg.clone()], area), ("followed by a square", vec![pg.clone(), sq.clone()], area + 1.0)] {
+                match guard(|| unary_union(&input)) {
+                    Err(e) => acc.viol(format!("unary_union panic on an ill-conditioned ring ({})", what), idx, || json!({"members": format!("{:?}", input), "panic": e})),
+                    Ok(u) => {
+                        let got = u.unsigned_area();
+                        if (got - want).abs() > 1e-6 * want {
+                            acc.viol(format!("unary_union of an ill-conditioned (needle) ring loses or changes the region ({}, {} winding)", what, if cw { "cw" } else { "ccw" }), idx, || json!({"members": format!("{:?}", input), "area": got, "expected_area": want, "result": format!("{:?}", u)}));
+                        }
+                    }
+                }
+            }
+        });
+    }
     // clip
     let g3 = grid(3);
     let mut lines: Vec<Vec<IP>> = vec![];
@@ -397,6 +446,8 @@ pub fn run(mut run: Run) -> i32 {
         }
     }
     lines.extend(polylines(&g3, 3));
+    // simple closed loops (the closing segment is part of the line string)
+    lines.extend(rings(3, 4).into_iter().step_by(if quick { 5 } else { 1 }).map(|r| close(&r)));
     if !quick {
         lines.extend(polylines(&g3, 4).into_iter().step_by(3));
     }
